@@ -78,9 +78,20 @@ def wrap(ctx, interp, st, v):
 class Mk:
     """Builds symbolic arguments and remembers how to read them back from a model."""
 
-    def __init__(self, st):
+    def __init__(self, st, sizes=None):
         self.st = st
         self.obs = {}    # name -> descriptor for model extraction
+        self.sizes = sizes   # None, or {name or '*': concrete int} for the small-size refuter
+
+    def size(self, name):
+        """array dimension: symbolic (>= 0 is up to the contract's requires) unless the refuter
+        fixed it to a small concrete value"""
+        if self.sizes is not None:
+            n = self.sizes.get(name, self.sizes.get("*"))
+            if n is not None:
+                self.obs[name] = ("const", n)
+                return n
+        return self.int(name)
 
     def int(self, name):
         v = z3.Int(name)
@@ -156,9 +167,13 @@ class Obligation:
     def formulas(self, extra_trig=False):
         g = self.goal
         fs = list(self.hyps)
+        if not isinstance(g, bool):
+            sk_hyps, g = T.skolemize(T.to_z3(g))
+            fs += sk_hyps
         fs.append(z3.Not(T.to_z3(g)) if not isinstance(g, bool) else z3.BoolVal(not g))
         ax = T.sum_axioms(fs)
         fs += ax
+        fs += T.ext_axioms(fs)
         fs += T.theory_axioms(fs, extra_trig=extra_trig)
         return fs
 
@@ -356,11 +371,13 @@ class FunctionReport:
         self.dropped = []
 
 
-def verify_contract(prop, contract, registry=None, options=None):
+def verify_contract(prop, contract, registry=None, options=None, sizes=None, only_instance=None):
     """Symbolically executes every instance of a contract; returns [FunctionReport] with
     undischarged obligations (solve() discharges them)."""
     reports = []
     for label, params in contract.instances:
+        if only_instance is not None and label != only_instance:
+            continue
         rep = FunctionReport(contract.target, label)
         rep.label = contract.short
         reports.append(rep)
@@ -383,15 +400,12 @@ def verify_contract(prop, contract, registry=None, options=None):
         lib.USED.clear()
         st = State()
         st.env = Env(module=mod)
-        mk = Mk(st)
+        mk = Mk(st, sizes)
         ctx.mk = mk
         try:
             args = params(mk)
             ctx.args = args
-            for k_, v_ in args.items():
-                if k_ not in mk.obs and (v_ is None or isinstance(v_, (int, str, bool, Fraction))):
-                    mk.obs[k_] = ("const", v_)
-            mk.obs["__argnames__"] = ("const", list(args))
+            mk.obs["__args__"] = {k_: describe(st, v_) for k_, v_ in args.items()}
             a0 = NS({k: wrap(ctx, interp, st, v) for k, v in args.items()})
             for req in contract.requires:
                 lab, fn = req[0], req[1]
@@ -423,6 +437,7 @@ def verify_contract(prop, contract, registry=None, options=None):
                 if kind in ("ok", "return"):
                     a = NS({k: wrap(ctx, interp, snap, v) for k, v in args.items()})
                     a.__dict__["old"] = ctx.old_ns
+                    a.__dict__["_pc"] = list(snap.pc)
                     r = wrap(ctx, interp, snap, payload)
                     for ens in contract.ensures:
                         lab, fn = ens[0], ens[1]
@@ -473,37 +488,75 @@ def _model_value(m, v):
     return str(x)
 
 
+def describe(st, v):
+    """structure of an argument value, for reading a counterexample back from a model"""
+    d = st.deref(v)
+    if is_sym(d):
+        if d.eq(T.INF):
+            return ("const", "inf")
+        return ("sym", d)
+    if isinstance(d, CArr):
+        return ("carray", list(d.shape), {",".join(map(str, k)): describe(st, x) for k, x in d.data.items()})
+    if isinstance(d, Arr):
+        if getattr(d, "func", None) is not None and not d.ups:
+            return ("array", d.func, tuple(d.shape), d.sort)
+        return ("opaque", "array")
+    if isinstance(d, dict):
+        return ("dict", {k: describe(st, x) for k, x in d.items()})
+    if isinstance(d, tuple):
+        return ("tuple", [describe(st, x) for x in d])
+    if isinstance(d, list):
+        return ("list", [describe(st, x) for x in d])
+    if isinstance(d, Obj):
+        return ("obj", d.cls if isinstance(d.cls, str) else getattr(d.cls, "qualname", "object"),
+                {k: describe(st, x) for k, x in d.fields.items()})
+    if d is None or isinstance(d, (int, str, bool)):
+        return ("const", d)
+    if isinstance(d, Fraction):
+        return ("const", [d.numerator, d.denominator])
+    return ("opaque", type(d).__name__)
+
+
+def _read(m, desc):
+    import itertools
+    kind = desc[0]
+    if kind == "sym":
+        return _model_value(m, desc[1])
+    if kind == "const":
+        return desc[1]
+    if kind == "carray":
+        return {"shape": desc[1], "cells": {k: _read(m, x) for k, x in desc[2].items()}}
+    if kind == "array":
+        f, shape = desc[1], desc[2]
+        dims = []
+        for sh in shape:
+            sv = sh if isinstance(sh, int) else _model_value(m, sh)
+            if not isinstance(sv, int) or sv < 0 or sv > 64:
+                return None
+            dims.append(sv)
+        cells = {}
+        for k in itertools.product(*[range(n) for n in dims]):
+            cells[",".join(map(str, k))] = _model_value(m, f(*[z3.IntVal(i) for i in k]))
+        return {"shape": dims, "cells": cells}
+    if kind == "dict":
+        return {k: _read(m, x) for k, x in desc[1].items()}
+    if kind == "tuple":
+        return {"__tuple__": [_read(m, x) for x in desc[1]]}
+    if kind == "list":
+        return [_read(m, x) for x in desc[1]]
+    if kind == "obj":
+        r = {k: _read(m, x) for k, x in desc[2].items()}
+        r["__cls__"] = desc[1]
+        return r
+    return None
+
+
 def _extract_model(m, obs):
-    out = {}
-    for name, d in obs.items():
-        kind = d[0]
-        if kind in ("int", "real", "bool"):
-            out[name] = _model_value(m, d[1])
-        elif kind == "const":
-            v = d[1]
-            if isinstance(v, Fraction):
-                v = [v.numerator, v.denominator]
-            out[name] = v if isinstance(v, (int, str, bool, type(None), list)) else str(v)
-        elif kind == "carray":
-            out[name] = [_model_value(m, c) for c in d[1]]
-        elif kind == "array":
-            f, shape = d[1], d[2]
-            dims = []
-            ok = True
-            for s in shape:
-                sv = s if isinstance(s, int) else _model_value(m, s)
-                if not isinstance(sv, int) or sv < 0 or sv > 64:
-                    ok = False
-                    break
-                dims.append(sv)
-            if not ok:
-                out[name] = None
-                continue
-            import itertools
-            cells = {}
-            for k in itertools.product(*[range(n) for n in dims]):
-                cells[",".join(map(str, k))] = _model_value(m, f(*[z3.IntVal(i) for i in k]))
-            out[name] = {"shape": dims, "cells": cells}
+    args = obs.get("__args__")
+    if args is None:
+        return {}
+    out = {k: _read(m, d) for k, d in args.items()}
+    out["__argnames__"] = list(args)
     return out
 
 
@@ -578,7 +631,7 @@ def _solve_one(args):
 def _has_trig(fs):
     for f in fs:
         for x in T.subterms(f).values():
-            if z3.is_app(x) and x.decl().name() in ("sin", "cos") and x.num_args() == 1:
+            if z3.is_app(x) and x.decl().name() in ("u_sin", "u_cos") and x.num_args() == 1:
                 return True
     return False
 
